@@ -15,6 +15,9 @@ Edges travel as `[u, v, w]` (`w = 1` for unweighted functions); `∞`/absent as 
     reply `[modelDistToT|null, negCycleExists, [ok…]]`
 * `["fw", n, es, directed, outs]`       out = `null` (UNBOUNDED) | matrix
     reply `[modelMatrix|null, [ok…], [okOnOldAdapterProblem…]]`
+* `["distc", n, es, s, outs, lvls]`, `["fwc", n, es, directed, outs, lvlss]`, `["topoc", n, es, outs]`:
+    large inputs – same verified checkers (`checkDist`, `checkFw`, `checkTopo`), certificates supplied by the
+    harness, no model recomputation; reply `[[ok…]]`.  `["within", xs, ys, eps]` → `[bool]`
 * `["support", n, es, directed, outs]`  out = 0/1 matrix (1 = finite distance); inexact-double inputs
     reply `[[ok…]]`
 * `["reach", n, es, s, outs]`           out = list of nodes
@@ -96,6 +99,30 @@ def handleFw (n : Nat) (es : List WEdge) (directed : Bool) (outs : List Val) : S
   (Val.arr [Val.ofOpt (fun M => Val.arr (M.map ofOptInts)) model,
     bools (outs.map (fwCheck n prob)), bools (outs.map (fwCheck n oldProb))]).render
 
+/-- large inputs: the tree-level certificates come from the harness (untrusted, like `mkLvl`), nothing
+is recomputed here; `null` outputs (UNBOUNDED) are not judged -/
+def handleDistC (n : Nat) (es : List WEdge) (s : Nat) (outs : List Val) (lvls : List (List Nat)) : String :=
+  let oks := (outs.zip lvls).map fun p =>
+    match toOptInts? p.1 with
+    | some d => checkDist n es s d p.2
+    | none => false
+  (Val.arr [bools oks]).render
+
+def handleFwC (n : Nat) (es : List WEdge) (directed : Bool) (outs : List Val) (lvlss : List (List (List Nat))) : String :=
+  let prob := pythonFwEdges directed es
+  let oks := (outs.zip lvlss).map fun p =>
+    match toMat? p.1 with
+    | some M => checkFw n prob M p.2
+    | none => false
+  (Val.arr [bools oks]).render
+
+def handleTopoC (n : Nat) (es : List WEdge) (outs : List Val) : String :=
+  let oks := outs.map fun o =>
+    match o.toNats? with
+    | some ord => checkTopo n es (some ord)
+    | none => false
+  (Val.arr [bools oks]).render
+
 def handleSupport (n : Nat) (es : List WEdge) (directed : Bool) (outs : List Val) : String :=
   let prob := pythonFwEdges directed es
   let oks := outs.map fun o =>
@@ -167,6 +194,22 @@ def handle (line : String) : String :=
     (match n.toNat?, toEdges? es, directed.toBool?, outs.toArr? with
      | some n, some es, some dr, some outs => handleFw n es dr outs
      | _, _, _, _ => err "bad arguments")
+  | some ("distc", [n, es, s, outs, lvls]) =>
+    (match n.toNat?, toEdges? es, s.toNat?, outs.toArr?, lvls.toNatss? with
+     | some n, some es, some s, some outs, some lvls => handleDistC n es s outs lvls
+     | _, _, _, _, _ => err "bad arguments")
+  | some ("fwc", [n, es, directed, outs, lvlss]) =>
+    (match n.toNat?, toEdges? es, directed.toBool?, outs.toArr?, (do (← lvlss.toArr?).mapM Val.toNatss?) with
+     | some n, some es, some dr, some outs, some lvlss => handleFwC n es dr outs lvlss
+     | _, _, _, _, _ => err "bad arguments")
+  | some ("topoc", [n, es, outs]) =>
+    (match n.toNat?, toEdges? es, outs.toArr? with
+     | some n, some es, some outs => handleTopoC n es outs
+     | _, _, _ => err "bad arguments")
+  | some ("within", [xs, ys, eps]) =>
+    (match xs.toRats?, ys.toRats?, eps.toRat? with
+     | some xs, some ys, some eps => (Val.arr [.bool (within xs ys eps)]).render
+     | _, _, _ => err "bad arguments")
   | some ("support", [n, es, directed, outs]) =>
     (match n.toNat?, toEdges? es, directed.toBool?, outs.toArr? with
      | some n, some es, some dr, some outs => handleSupport n es dr outs
